@@ -25,12 +25,8 @@ deriving Repr, DecidableEq
 def two64 : Nat := 2 ^ 64
 def max256 : Nat := 2 ^ 256 - 1
 
-/-- number of bits of `n` (0 for 0), structural in the fuel -/
-def bitLenAux : Nat → Nat → Nat
-  | 0, _ => 0
-  | fuel + 1, n => if n = 0 then 0 else bitLenAux fuel (n / 2) + 1
-
-def bitLen (n : Nat) : Nat := bitLenAux (n + 1) n
+/-- number of bits of `n` (0 for 0) -/
+def bitLen (n : Nat) : Nat := if n = 0 then 0 else Nat.log2 n + 1
 
 /-- Round-half-even division: nearest integer to a/b (b > 0). -/
 def divRoundEven (a b : Nat) : Nat :=
